@@ -36,7 +36,7 @@ def _get_verifier():
     global _V
     if _V is None:
         from .verify import Verifier
-        _V = Verifier()
+        _V = Verifier(contracts=_MODS[0])
     return _V
 
 
